@@ -295,3 +295,180 @@ theorem insertAfterTail_far {f : Forest} {c : Nat} {t : HTree} {q : Nat} {vq : V
           simp [join, Keep.resident, htc]
 
 end XotModel
+
+namespace XotModel
+open HTree Spec
+
+theorem nextOf_eq_some {B : List HTree} {kr : HTree} {x : Nat} (h : nextOf B kr = some x) :
+    ∃ kb B2, B = kb :: B2 ∧ kb.handle = x ∧ kb.value.category = kr.value.category := by
+  unfold nextOf at h
+  cases hB : B.head? with
+  | none => rw [hB] at h; cases h
+  | some kb =>
+    rw [hB] at h
+    simp only at h
+    obtain ⟨B2, e⟩ := List.head?_eq_some_iff.1 hB
+    by_cases hc : (kb.value.category == kr.value.category) = true
+    · rw [if_pos hc] at h
+      exact ⟨kb, B2, e, Option.some.inj h, by simpa using hc⟩
+    · rw [if_neg hc] at h; cases h
+
+theorem prevOf_eq_some {A : List HTree} {kr : HTree} {x : Nat} (h : prevOf A kr = some x) :
+    ∃ A2 ka, A = A2 ++ [ka] ∧ ka.handle = x ∧ ka.value.category = kr.value.category := by
+  unfold prevOf at h
+  cases hA : A.getLast? with
+  | none => rw [hA] at h; cases h
+  | some ka =>
+    rw [hA] at h
+    simp only at h
+    obtain ⟨A2, e⟩ := List.getLast?_eq_some_iff.1 hA
+    by_cases hc : (ka.value.category == kr.value.category) = true
+    · rw [if_pos hc] at h
+      exact ⟨A2, ka, e, Option.some.inj h, by simpa using hc⟩
+    · rw [if_neg hc] at h; cases h
+
+/-- What the two argument checks of `insert_after` / `insert_before` say. -/
+theorem sibling_checks_unpack {f : Forest} {ref c : Nat} (nd : f.allHandles.Nodup)
+    (hsc : f.structureCheck (f.parent? ref) c = true) (hsr : f.siblingReferenceCheck ref c = true) :
+    ∃ q vq A kr B t, SiteAt f q vq (A ++ kr :: B) ∧ kr.handle = ref ∧ kr.value.isNormal = true ∧ ref ≠ c ∧
+      f.get? c = some t ∧ q ∉ handles t ∧ t.value.isNormal = true ∧ t.value.isDocument = false ∧
+      vq.isText = false := by
+  cases hp : f.parent? ref with
+  | none => rw [hp] at hsc; simp [Forest.structureCheck] at hsc
+  | some q =>
+    rw [hp] at hsc
+    obtain ⟨vq, Lq, t, hgq, hgc, hqt, hnorm, hndoc, hvq⟩ := Forest.structureCheck_unpack nd hsc
+    unfold Forest.parent? at hp
+    cases hctx : f.ctx? ref with
+    | none => rw [hctx] at hp; cases hp
+    | some cx =>
+      rw [hctx] at hp
+      simp only [Option.map_some, Option.some.injEq] at hp
+      obtain ⟨e0, v', s⟩ := SiteAt.of_ctx nd hctx
+      obtain ⟨p', A, kr, B⟩ := cx
+      simp only at hp e0 s
+      subst hp
+      have : v' = vq := by
+        have := s.kids; rw [hgq] at this
+        have := Option.some.inj this
+        injection this with _ e2 _
+        exact e2.symm
+      subst this
+      unfold Forest.siblingReferenceCheck at hsr
+      simp only [Bool.and_eq_true, bne_iff_ne, ne_eq] at hsr
+      have hkrn : kr.value.isNormal = true := by
+        have h2 := hsr.2
+        unfold Forest.isNormalNode Forest.value? at h2
+        rw [← e0, s.getKid] at h2
+        simpa using h2
+      refine ⟨p', v', A, kr, B, t, s, e0, hkrn, hsr.1, hgc, hqt, hnorm, hndoc, ?_⟩
+      cases hvq with
+      | inl h => cases v' <;> simp_all [Value.isElement, Value.isText]
+      | inr h => cases v' <;> simp_all [Value.isDocument, Value.isText]
+
+theorem occupied_after {f : Forest} {c : Nat} {t : HTree} {q : Nat} {vq : Value} {A : List HTree} {kr : HTree}
+    {B : List HTree} (sq : SiteAt f q vq (A ++ kr :: B)) (hgc : f.get? c = some t)
+    (hnorm : t.value.isNormal = true) (hkrn : kr.value.isNormal = true) :
+    Dest.occupiedBy f c (.after kr.handle) = true ↔ nextOf B kr = some c := by
+  simp only [Dest.occupiedBy, sq.ctx, beq_iff_eq]
+  constructor
+  · intro h
+    cases hB : B.head? with
+    | none => rw [hB] at h; cases h
+    | some kb =>
+      rw [hB] at h
+      simp only [Option.map_some, Option.some.injEq] at h
+      obtain ⟨B2, e⟩ := List.head?_eq_some_iff.1 hB
+      subst e
+      have skb : SiteAt f q vq ((A ++ [kr]) ++ kb :: B2) := by
+        have : (A ++ [kr]) ++ kb :: B2 = A ++ kr :: kb :: B2 := by simp
+        rw [this]; exact sq
+      have := skb.getKid
+      rw [h, hgc] at this
+      have := Option.some.inj this
+      subst this
+      have h1 : t.value.category = .normal := by simpa [Value.isNormal] using hnorm
+      have h2 : kr.value.category = .normal := by simpa [Value.isNormal] using hkrn
+      simp [nextOf, h1, h2, h]
+  · intro h
+    obtain ⟨kb, B2, e, ekb, _⟩ := nextOf_eq_some h
+    subst e
+    simp [ekb]
+
+/-- **insert_after**, when the moved node is not already a child of the reference's parent. -/
+theorem insertAfter_spec_far {f : Forest} {ref c : Nat} (inv : f.Inv) (norm : f.Normal)
+    (hfar : f.parent? c ≠ f.parent? ref) (hok : (f.insertAfter ref c).2 = .ok) :
+    (f.insertAfter ref c).1 = specMove (Keep.resident c) (.after ref) c f := by
+  have nd := inv.nodup
+  have hsc : f.structureCheck (f.parent? ref) c = true := by
+    cases h : f.structureCheck (f.parent? ref) c with
+    | true => rfl
+    | false => rw [insertAfter_unfold] at hok; simp [h] at hok
+  have hsr : f.siblingReferenceCheck ref c = true := by
+    cases h : f.siblingReferenceCheck ref c with
+    | true => rfl
+    | false => rw [insertAfter_unfold] at hok; simp [hsc, h] at hok
+  obtain ⟨q, vq, A, kr, B, t, sq, ekr, hkrn, hrc, hgc, hqt, hnorm, hndoc, hvq⟩ := sibling_checks_unpack nd hsc hsr
+  subst ekr
+  have htc : t.handle = c := (findList?_some f.roots t hgc).1
+  have hnext : f.nextSibling kr.handle = nextOf B kr := Forest.nextSibling_of_ctx sq.ctx
+  have hparref : f.parent? kr.handle = some q := Forest.parent?_of_ctx sq.ctx
+  have hoccIff := occupied_after sq hgc hnorm hkrn
+  by_cases hsame : nextOf B kr = some c
+  · have hocc := hoccIff.2 hsame
+    rw [insertAfter_unfold]
+    unfold specMove
+    simp [hsc, hsr, hnext, hsame, hocc]
+  · have hocc : Dest.occupiedBy f c (.after kr.handle) = false := by
+      cases h : Dest.occupiedBy f c (.after kr.handle) with
+      | false => rfl
+      | true => exact absurd (hoccIff.1 h) hsame
+    rw [insertAfter_unfold]
+    simp only [hsc, hsr, hnext, Bool.not_true, Bool.false_eq_true, if_false, beq_iff_eq, hsame]
+    rcases Forest.root_or_ctx hgc with hroot | ⟨cx, hctx⟩
+    · have hno := Forest.ctx_none_of_root nd hroot
+      rw [Forest.prevSibling_of_no_ctx hno, Forest.nextSibling_of_no_ctx hno,
+        Forest.removeConsolidate_none_left]
+      simp only [Bool.false_and, Bool.false_eq_true, if_false]
+      exact insertAfterTail_far inv norm (far_root hgc hno sq hqt) sq hgc (Or.inl rfl) hrc hkrn hqt hsame hocc
+    · obtain ⟨e0, vo, so⟩ := SiteAt.of_ctx nd hctx
+      have hself : cx.self = t := by
+        have := Forest.get?_of_ctx nd hctx
+        rw [hgc] at this
+        exact (Option.some.inj this).symm
+      obtain ⟨po, l, k, r⟩ := cx
+      simp only at e0 so hself
+      subst hself
+      subst htc
+      have hpo : po ≠ q := by
+        intro e
+        apply hfar
+        rw [Forest.parent?_of_ctx hctx, hparref, e]
+      rw [Forest.prevSibling_of_ctx hctx, Forest.nextSibling_of_ctx hctx]
+      simp only
+      -- the reference is not a sibling of the moved node, so it is not rewritten
+      have hnr : ¬ nextOf r k = some kr.handle := by
+        intro h
+        obtain ⟨kb, r2, er, ekb, _⟩ := nextOf_eq_some h
+        subst er
+        have skb : SiteAt f po vo ((l ++ [k]) ++ kb :: r2) := by
+          have : (l ++ [k]) ++ kb :: r2 = l ++ k :: kb :: r2 := by simp
+          rw [this]; exact so
+        have h1 := skb.ctx
+        rw [ekb, sq.ctx] at h1
+        have := Option.some.inj h1
+        injection this with ep _ _ _
+        exact hpo ep.symm
+      have href : (if (f.removeConsolidate (prevOf l k) (nextOf r k)).2 && nextOf r k == some kr.handle
+          then (prevOf l k).getD kr.handle else kr.handle) = kr.handle := by
+        have : (nextOf r k == some kr.handle) = false := by
+          cases h : nextOf r k == some kr.handle with
+          | false => rfl
+          | true => exact absurd (by simpa using h) hnr
+        rw [this]; simp
+      rw [href]
+      obtain ⟨φ, F⟩ := far_kid (keep := Keep.resident k.handle) inv norm (Keep.resident_spec k.handle)
+        so sq hpo hqt hvq
+      exact insertAfterTail_far inv norm F sq hgc (old_stage inv norm so).same_or_not_text hrc hkrn hqt hsame hocc
+
+end XotModel
